@@ -6,7 +6,7 @@ The message is 96 symbolic bits; every error pattern is a literal shape, so each
 constants - the engine sees the affine forms, no linearity meta-argument is used."""
 import itertools
 
-from pyvc.contract import contract
+from pyvc.contract import contract, stub, current_vc
 from okdmr.dmrlib.etsi.fec.bptc_196_96 import BPTC19696
 
 
@@ -59,6 +59,7 @@ def _decode_shapes(tier):
 
 
 decode.shapes = _decode_shapes
+decode.stub_shapes = lambda tier: [dict(e=(), repair=False), dict(e=(), repair=True)]  # what the decoder stub relies on
 decode.native_random = 60
 
 
@@ -92,3 +93,60 @@ def deinterleave_all(vc):
     vc.prove("map_is_a_permutation_of_196", perm)
     vc.prove("places_by_the_map", vc.and_(*[vc.eq(d[i], b[n]) for i, n in BPTC19696.FULL_DEINTERLEAVING_MAP.items()]))
     vc.prove("frame_argument_unchanged", vc.eq(b, before))
+
+
+@contract("BPTC19696.deinterleave_data_bits.any_196_bits", "okdmr.dmrlib.etsi.fec.bptc_196_96:BPTC19696.deinterleave_data_bits", ["C02", "C07", "C08"],
+          stubs=["HammingCommon.correct_numpy_array"])
+def decode_any(vc, repair):
+    """ANY 196 received bits: never raises, returns 96 bits, argument unchanged (the row / column repair calls are replaced
+    by their any-word contract: some word of the same length comes back)"""
+    b = vc.bits(196, "b")
+    keep = b.copy()
+    d = BPTC19696.deinterleave_data_bits(b, repair)
+    vc.prove("returns_96_bits", len(d) == 96)
+    vc.prove("frame_argument_unchanged", vc.eq(b, keep))
+
+
+decode_any.shapes = lambda tier: [dict(repair=True), dict(repair=False)]
+
+
+def _same_bits(a, b):
+    from pyvc import core
+    from pyvc.values import bitpoly
+
+    if len(a) != len(b):
+        return False
+    for x, y in zip(a, b):
+        if core.norm_under_pc(bitpoly(x)) != core.norm_under_pc(bitpoly(y)):
+            return False
+    return True
+
+
+_real_encode = BPTC19696.__dict__["encode"].__func__
+_real_decode = BPTC19696.__dict__["deinterleave_data_bits"].__func__
+
+
+@stub("BPTC19696.encode", "okdmr.dmrlib.etsi.fec.bptc_196_96:BPTC19696.encode", provided_by="BPTC19696.encode")
+def encode_recording(bits_deinterleaved):
+    """the real encoder (inlined), plus a ghost record (codeword -> message) for the decoder's contract"""
+    out = _real_encode(bits_deinterleaved)
+    vc = current_vc()
+    vc.ghost.setdefault("bptc", []).append((out.copy(), bits_deinterleaved.copy()))
+    return out
+
+
+@stub("BPTC19696.deinterleave_data_bits", "okdmr.dmrlib.etsi.fec.bptc_196_96:BPTC19696.deinterleave_data_bits",
+      provided_by=["BPTC19696.deinterleave_data_bits", "BPTC19696.deinterleave_data_bits.any_196_bits"])
+def decode_by_contract(bits, repair_if_necessary=True):
+    """what callers see of the decoder: an (error-free) codeword the encoder produced on this path decodes to its message
+    [contract BPTC19696.deinterleave_data_bits, e = ()]; for anything else SOME 96 bits come back [any_196_bits]"""
+    vc = current_vc()
+    assert len(bits) == 196, "BPTC 196,96 decode requires 196 bits"
+    from pyvc.values import SBit
+
+    if not any(isinstance(x, SBit) for x in bits.tolist()):  # literal contents: nothing to abstract, the real decoder runs
+        return _real_decode(bits, repair_if_necessary)
+    for cw, msg in reversed(vc.ghost.get("bptc", [])):
+        if _same_bits(bits.tolist(), cw.tolist()):
+            return msg.copy()
+    return vc.havoc_bits(96)
